@@ -36,6 +36,7 @@ def handle (line : String) : String :=
   | "mblock" :: rest => Drv.mLine rest
   | "linescan" :: rest => Drv.lineScanLine rest
   | "fullparse" :: rest => Drv.fullParseLine rest
+  | "fullparser" :: rest => Drv.fullParseRLine rest
   | "unescape" :: rest => Drv.unescapeLine rest
   | "inline" :: rest => Drv.inlineLine rest
   | "inlinex" :: rest => Drv.inlineXLine rest
